@@ -144,7 +144,8 @@ Definition tm_wf (m : tileMatrix) : Prop :=
 Definition tm_stable (m : tileMatrix) : Prop :=
   uint_stable (tm_tileWidth m) /\ uint_stable (tm_tileHeight m) /\
   uint_stable (tm_matrixWidth m) /\ uint_stable (tm_matrixHeight m) /\
-  forall l, tm_vmw m = Some l -> Forall vmw_stable l.
+  (forall l, tm_vmw m = Some l -> Forall vmw_stable l) /\
+  uints_ok (collapse (tm_fields m)) = true.          (* the printed numbers pass checkUnsignedIntegers *)
 
 Ltac look :=
   unfold member; rewrite lookup_last_collapse by (vm_compute; reflexivity);
@@ -238,8 +239,8 @@ Proof. reflexivity. Qed.
 Theorem decodeTM_encode : forall m, tm_wf m -> tm_stable m ->
   decodeTM (collapse (tm_fields m)) = Ok (norm_tm m).
 Proof.
-  intros m [HV [Fsd [Fcs [p [HO [F1 F2]]]]]] [S1 [S2 [S3 [S4 S5]]]].
-  unfold decodeTM.
+  intros m [HV [Fsd [Fcs [p [HO [F1 F2]]]]]] [S1 [S2 [S3 [S4 [S5 S6]]]]].
+  unfold decodeTM. rewrite S6. unfold decodeTM_fields.
   rewrite m_id, m_title, m_desc, m_kw, (m_sd m Fsd), (m_cs m Fcs), m_co, (m_po m p HO F1 F2),
           (m_tw m S1), (m_th m S2), (m_mw m S3), (m_mh m S4), (m_vm m S5).
   assert (E : (MkTM (cval (CVal (tm_id m)) "")
@@ -406,7 +407,7 @@ Qed.
 
 Lemma nums_finite_encodeTM : forall m, tm_wf m -> tm_stable m -> nums_finite (encodeTM m) = true.
 Proof.
-  intros m [HV [Fsd [Fcs [p [HO [F1 F2]]]]]] [S1 [S2 [S3 [S4 S5]]]].
+  intros m [HV [Fsd [Fcs [p [HO [F1 F2]]]]]] [S1 [S2 [S3 [S4 [S5 _]]]]].
   unfold encodeTM. rewrite nums_finite_collapse. unfold tm_fields. cbn [forallb snd fin_opt].
   rewrite !fin_ostr, fin_ostrs, (finite_num _ Fsd), (finite_num _ Fcs), HO, (fin_jpoint p F1 F2),
           (stable_num _ S1), (stable_num _ S2), (stable_num _ S3), (stable_num _ S4), (fin_vmws _ S5).
